@@ -257,6 +257,9 @@ pub fn shrink_candidates(x: &Sx) -> Vec<Sx> {
 /// Greedy shrinking of a session: drop forms, then simplify expressions, while `fails` holds.
 pub fn shrink_session<F: FnMut(&[Sx]) -> bool>(forms: &[Sx], mut fails: F, budget: usize) -> Vec<Sx> {
     let mut cur: Vec<Sx> = forms.to_vec();
+    if !crate::report::minimise_on() {
+        return cur;
+    }
     let mut tests = 0usize;
     // drop forms
     let mut i = 0;
